@@ -9,7 +9,7 @@ SEEDS=${1:-6}; N=${2:-40}
 BIN=./bin/icesim; RBIN=./bin/icesim-race
 [ -x $BIN ] || { echo "run ./check.sh setup first" >&2; exit 2; }
 tmp=$(mktemp -d /verif/bin/det-XXXXXX); trap 'rm -rf $tmp' EXIT
-pairs="C03:lifecycle C16:giant C11:aligned C19:read-fault-large C01:world C02:world C03:world C04:world C11:world C16:world C05:nav C06:stored C07:docvalues C08:dictionary C09:concurrent C10:interop C10:golden C12:persist-fault C13:reuse C14:build-history C15:immutability C17:tree C18:dmt C19:read-fault"
+pairs="C03:lifecycle C12:merge-read-fault C14:fresh-process C16:giant C11:aligned C19:read-fault-large C01:world C02:world C03:world C04:world C11:world C16:world C05:nav C06:stored C07:docvalues C08:dictionary C09:concurrent C10:interop C10:golden C12:persist-fault C13:reuse C14:build-history C15:immutability C17:tree C18:dmt C19:read-fault"
 fail=0; total=0
 run() { # bin gomaxprocs prop scen seed n out
   GOMAXPROCS=$2 GORACE="halt_on_error=0 log_path=$tmp/race" $1 trace $3 $4 $5 $6 > $7 2>$7.err || { echo "trace failed: $*"; cat $7.err | tail -5; fail=1; }
